@@ -229,6 +229,7 @@ type Exec struct {
 	preludeText string          // all prelude text of this unit (symbols defined there are not re-declared)
 	applied     map[string]int  // contracts applied at call sites -> count
 	atCallSeen  map[string]bool // callees of atcall clauses that were called on some path
+	alias       map[string]string // contract name -> local name it is bound to instead (a renamed local; see RunCheck)
 	visits      int             // executed blocks (guards against runaway unrolling)
 	prog        *Program
 	staticRecv  types.Type      // receiver type of a statically dispatched interface call being applied
